@@ -1197,6 +1197,14 @@ func pairedNodeLists(w *World, fn *ssa.Function, a, b ssa.Value) bool {
 	return sites > 0
 }
 
+// isLenValue: v is len(x) of a string, directly or kept in a variable assigned once.
+func isLenValue(v ssa.Value) bool {
+	if a := lenCallArg(v); a != nil {
+		return isString(a.Type())
+	}
+	return false
+}
+
 // advancingCall: c calls a helper of the same package with an int argument; some int result of
 // the helper is greater than that parameter on every return, and that result flows (through
 // merges) into a variable carried round the loop with header hdr.
@@ -3644,13 +3652,22 @@ func lexFirstIterationRuns(w *World, lf *LexFacts, fn *ssa.Function, hdr *ssa.Ba
 	var posPhi *ssa.Phi
 	var src ssa.Value
 	exits := 0
+	lengthExit := false
 	for blk := range body {
 		for _, sc := range blk.Succs {
 			if body[sc] {
 				continue
 			}
-			exits++
 			c, _ := condOf(blk)
+			// leaving because the position has reached the end of the text: not taken in the first
+			// round when a character was seen at the entry position (judged below)
+			if bo, ok := c.(*ssa.BinOp); ok && bo.Op == token.LSS && sc == blk.Succs[1] {
+				if ph, ok := bo.X.(*ssa.Phi); ok && ph.Block() == hdr && lenCallArg(bo.Y) != nil || ok && ph.Block() == hdr && isLenValue(bo.Y) {
+					lengthExit = true
+					continue
+				}
+			}
+			exits++
 			cc, pos, sv, ok := classTest(c)
 			if !ok {
 				return false
@@ -3662,6 +3679,9 @@ func lexFirstIterationRuns(w *World, lf *LexFacts, fn *ssa.Function, hdr *ssa.Ba
 			inner, posPhi, src = cc, ph, sv
 			haveInner = true
 		}
+	}
+	if os.Getenv("VERIF_DEBUG") == "lexloop" {
+		fmt.Printf("FIRSTITER %s hdr=%d exits=%d haveInner=%v lengthExit=%v\n", fn.Name(), hdr.Index, exits, haveInner, lengthExit)
 	}
 	if exits != 1 || !haveInner {
 		return false
@@ -3683,11 +3703,13 @@ func lexFirstIterationRuns(w *World, lf *LexFacts, fn *ssa.Function, hdr *ssa.Ba
 		if !ok || neg || pos != entry || sv != src {
 			continue
 		}
-		if !(d.Succs[0].Dominates(hdr) && len(d.Succs[0].Preds) == 1) {
+		if !(d.Succs[0].Dominates(hdr) && len(d.Succs[0].Preds) == 1) && !(d.Succs[0] == hdr && d.Succs[1] != hdr) {
 			continue
 		}
 		// class inclusion: every character that passes the entry test passes the loop's test
+		// (a character was there, so a length test at the head of the loop holds in the first round)
 		incl := cc.SubsetOf(inner)
+		_ = lengthExit
 		if incl {
 			return true
 		}
